@@ -21,6 +21,11 @@ Rec == ndJsonDeserialize(IOEnv.TRACE)
 TrN      == Rec[1].n
 TrStake  == [i \in 0..(Rec[1].n - 1) |-> Rec[1].stakes[i + 1]]
 TrHonest == {Rec[1].honest[i] : i \in 1..Len(Rec[1].honest)}
+\* the leader of each round as the REAL LeaderElector computes it for this committee (abstract authority indices; table in the header).
+\* The leader monitor judges the code by its own election (whose determinism, committee-only dependence and rotation are checked separately,
+\* TraceCommittee); a rotation that differs from the model's `round mod n` shows up as handler divergences, not as an alarm.
+ObsLeader(r) == IF "leaders" \in DOMAIN Rec[1] /\ r + 1 <= Len(Rec[1].leaders) THEN Rec[1].leaders[r + 1] ELSE Leader(r)
+VoteOnlyLeaderBlocksObs == \A n \in Honest : \A v \in hist[n].votes : Auth(v.blk) = ObsLeader(Rnd(v.blk))
 
 \* block dictionary: ids are unique over the whole file, 0 = genesis
 \* (the harness numbers the dictionary records 1, 2, ... in file order)
@@ -43,6 +48,8 @@ VARIABLES l,      \* next record
           seen,   \* [node -> verified votes and timeouts the node has been given (or cast itself)]
           mp      \* [node -> own: batches it sealed, acks: <<digest, acker>> acknowledgements that reached it, rel: batches released]
 tvars == <<vars, l, div, ndiv, lst, nsteps, viol, have, seen, mp>>
+\* the report keeps the first 80 monitor failures (a set that grows with every record makes every later state larger)
+Lim(S) == IF Cardinality(viol) >= 80 THEN {} ELSE S
 
 InitLst == [r |-> 1, lv |-> 0, lc |-> 0, hq |-> Genesis]
 
@@ -191,7 +198,7 @@ CoreStep(e) ==
              ELSE ns' = [ns EXCEPT ![n] = Resync(pred, e)] /\ Diverge(e.k)
      /\ Observe(n, e)
      /\ nsteps' = nsteps + 1
-     /\ viol' = viol \cup AvailViol(n, e) \cup CertViol(n, e)
+     /\ viol' = viol \cup Lim(AvailViol(n, e) \cup CertViol(n, e))
      /\ seen' = [seen EXCEPT ![n] = SeenAfter(n, e)]
      /\ UNCHANGED <<proposals, votes, timeouts, tcs, have, mp>>
 
@@ -234,14 +241,16 @@ BoundaryViol ==
   Check("C03.NoVoteAfterTimeout", NoVoteAfterTimeout) \cup
   Check("C03.VoteJustified", VoteJustified) \cup
   Check("C05.CommitNeedsTwoChain", CommitNeedsTwoChain) \cup
-  Check("C09.VoteOnlyLeaderBlocks", VoteOnlyLeaderBlocks) \cup
+  Check("C09.VoteOnlyLeaderBlocks", VoteOnlyLeaderBlocksObs) \cup
   Check("C09.HonestNoEquivocation", HonestNoEquivocation) \cup
   Check("C10.RoundMonotone", RoundMonotone) \cup
   Check("C10.RoundNeedsCertificate", RoundNeedsCertificate) \cup
-  Check("C10.TimeoutCarriesHighQC", TimeoutCarriesHighQC)
+  Check("C10.TimeoutCarriesHighQC", TimeoutCarriesHighQC) \cup
+  \* C12 ("hence ... held by at least f+1 honest nodes"): a real node that acknowledged a batch has it in its store
+  Check("C12.AckedBatchIsStored", \A n \in Honest : \A x \in mp[n].acks : (x[1] \in mp[n].own /\ x[2] \in Honest) => x[1] \in have[x[2]])
 
 Reset ==
-  /\ viol' = viol \cup BoundaryViol
+  /\ viol' = viol \cup Lim(BoundaryViol)
   /\ ns' = [n \in Honest |-> InitNode(n)]
   /\ proposals' = {} /\ votes' = {} /\ timeouts' = {} /\ tcs' = {}
   /\ delivered' = [n \in Honest |-> <<>>]
@@ -253,7 +262,7 @@ Reset ==
   /\ UNCHANGED <<div, ndiv, nsteps>>
 
 Skip == UNCHANGED <<vars, div, ndiv, lst, nsteps, viol, have, seen, mp>>
-End == viol' = viol \cup BoundaryViol /\ UNCHANGED <<vars, div, ndiv, lst, nsteps, have, seen, mp>>
+End == viol' = viol \cup Lim(BoundaryViol) /\ UNCHANGED <<vars, div, ndiv, lst, nsteps, have, seen, mp>>
 \* C12 at system level (full-node runs): a batch this node sealed is handed on (QWRelease) only when its own stake plus the
 \* stake of the distinct authorities whose acknowledgement had reached it is a quorum
 Stored(e) ==
